@@ -32,6 +32,7 @@ class Real:
         self.nspawn = 0
         self.new_spawns = []
         self.entered = False
+        self.exiting = False
         self.spawn_errors = 0
 
     async def member(self, tid, react):
@@ -95,10 +96,11 @@ class Real:
                 await g.join()
             elif mode == 'aexit':
                 async with g:
-                    pass
+                    self.exiting = True
             else:
                 try:
                     async with g:
+                        self.exiting = True
                         raise KeyError
                 except KeyError:
                     pass
@@ -230,7 +232,7 @@ def run_case(case):
                 if started and R.J.done() and oracle['join_end'] is None:
                     jt = R.J
                     oracle['join_end'] = {
-                        'entered': R.entered, 'undone': live(), 'joined': R.g.joined,
+                        'entered': R.entered, 'exiting': R.exiting, 'undone': live(), 'joined': R.g.joined,
                         'joiner_cancelled': jt.cancelled(),
                         'joiner_exc': None if jt.cancelled() or jt.exception() is None else type(jt.exception()).__name__,
                         'at': len(trace)}
